@@ -274,8 +274,10 @@ GAUGE_TABLES = ['nids_' + f for f in hamlib.FAMS]
 
 
 def gauge_wf(h):
-    """the bookkeeping predicate `GaugeH.wf` of the model, evaluated on the real MPO"""
+    """the bookkeeping predicates `GaugeH.wf` and `GaugeH.dimsOk` of the model, evaluated on the real MPO"""
     bd = list(h.bond_dims)
+    if len(bd) != h.nsites + 1:
+        return False
     for name in GAUGE_TABLES:
         for inner in getattr(h, name).values():
             for k, nid in inner.items():
